@@ -278,6 +278,9 @@ class Model:
                 head, rest = line.split(" :: ", 1)
                 parts = head.split(" ")
                 res[(parts[0], parts[2])] = rest
+            elif line.startswith("opt "):
+                head, rest = line.split(" :: ", 1)
+                res[("opt", head.split(" ")[1])] = rest
             elif line.startswith("gen "):
                 head, rest = line.split(" :: ", 1)
                 res[("gen", head.split(" ")[1])] = rest
